@@ -131,3 +131,13 @@ Example C17_dissect_corners :
   dissect true BrDontTouch [38; 38; 61; 38; 97; 61; 61; 98; 38; 61; 99; 38]%N
   = DOk [([], Some []); ([97%N], Some [61%N; 98%N]); ([], Some [99%N])] 3.
 Proof. vm_compute. reflexivity. Qed.
+
+(* ---- the character switch of uriDissectQueryMallocExMm, translated from the C source on every check:
+   labels exactly '&' and '=', each with its own body, as dissect_walk.  Proof in Proofs/SwitchQuery.v. *)
+From UP Require Import Generated.SwitchTables Proofs.SwitchBase Proofs.SwitchQuery.
+
+Theorem C17_dissect_switch_classes :
+  (forall c, In c (concat t_dissect) <-> ((c =? 38) || (c =? 61))%N = true)
+  /\ (forall c d, dissect_class c = dissect_class d -> group_of t_dissect c = group_of t_dissect d).
+Proof. exact dissect_switch. Qed.
+Print Assumptions C17_dissect_switch_classes.
